@@ -78,14 +78,14 @@ CLAIMED = {
     engine="driver-ai"),
  "C03": dict(
     category="other",
-    text="Clauses of 'the signature is the FIPS 204 Sign output for the drawn rnd', each decided for every key, message, context <= 255 and generator output from one abstract run per signing entry point (pure + 3 pre-hash functions): S1 exactly one 32-byte generator request fills rnd and nothing unmodelled is called (no other input); S2 M' is formatted as Alg. 2/4 (C06 rules R1-R3 on the sign side: domain byte, exact length byte, whole ctx, FIPS OIDs, digest lengths); S3 mu = H(tr|M',64), rho'' = H(K|rnd|mu,64) with K the key field other than rho and rnd the generator bytes; S4 the signing loop is peeled three times: ExpandMask instance r of iteration n absorbs rho''|IntegerToBytes(n*l+r,2), and the loop invariant carries kappa = 0 (mod l): every path back to the loop head adds exactly l; S5 c~ = first lambda/4 bytes of H(mu|w1Encode(w1)), SampleInBall absorbs all of c~; S6 the path condition at the sigEncode call bounds ||z||, ||r0||, ||ct0|| and the hint weight by exactly the Alg. 7 thresholds; S7 A-hat = ExpandA(sk.rho) with FIPS index bytes and order; S8 Decompose/HighBits/LowBits, MakeHint, mod+- and CoeffFromThreeBytes (ExpandA's kernel) equal their FIPS definitions on the whole domain (C15 engine), and RejNTTPoly leaves its loop only with 256 accepted coefficients in every call; S9 the ring arithmetic of the loop body, symbolically (product symbols modulo q): w = NTT^-1(A-hat o NTT(y)), c-hat = NTT(c), c*s1 / c*s2 / c*t0 from the key precomputes with the Montgomery factor cancelling, z = y + c*s1, w1 = HighBits(w), LowBits(w - c*s2), MakeHint(-c*t0, w - c*s2 + c*t0). With C18 F the arithmetic steps of Sign_internal are accounted for. Still not decided (hence level 'other'): SampleInBall's shuffle as an algorithm (only its absorb list and output weight), the fill order inside the rejection samplers, HintBitPack's layout (S10 shows w1Encode is SimpleBitPack in the FIPS bit order; z packing is C08 R4+R5); trusted: hash implementations, NTT diagonalisation (mathematics).",
+    text="Clauses of 'the signature is the FIPS 204 Sign output for the drawn rnd', each decided for every key, message, context <= 255 and generator output from one abstract run per signing entry point (pure + 3 pre-hash functions): S1 exactly one 32-byte generator request fills rnd and nothing unmodelled is called (no other input); S2 M' is formatted as Alg. 2/4 (C06 rules R1-R3 on the sign side: domain byte, exact length byte, whole ctx, FIPS OIDs, digest lengths); S3 mu = H(tr|M',64), rho'' = H(K|rnd|mu,64) with K the key field other than rho and rnd the generator bytes; S4 the signing loop is peeled three times: ExpandMask instance r of iteration n absorbs rho''|IntegerToBytes(n*l+r,2), and the loop invariant carries kappa = 0 (mod l): every path back to the loop head adds exactly l; S5 c~ = first lambda/4 bytes of H(mu|w1Encode(w1)), SampleInBall absorbs all of c~; S5b SampleInBall skeleton: tau of Table 1, 8 sign bytes squeezed first then single index bytes from offset 8, positions 256-tau..255 visited with sign-bit index 0..tau-1, output in {-1,0,1}; S6 the path condition at the sigEncode call bounds ||z||, ||r0||, ||ct0|| and the hint weight by exactly the Alg. 7 thresholds; S7 A-hat = ExpandA(sk.rho) with FIPS index bytes and order; S8 Decompose/HighBits/LowBits, MakeHint, mod+- and CoeffFromThreeBytes (ExpandA's kernel) equal their FIPS definitions on the whole domain (C15 engine), and RejNTTPoly leaves its loop only with 256 accepted coefficients in every call; S9 the ring arithmetic of the loop body, symbolically (product symbols modulo q): w = NTT^-1(A-hat o NTT(y)), c-hat = NTT(c), c*s1 / c*s2 / c*t0 from the key precomputes with the Montgomery factor cancelling, z = y + c*s1, w1 = HighBits(w), LowBits(w - c*s2), MakeHint(-c*t0, w - c*s2 + c*t0). With C18 F the arithmetic steps of Sign_internal are accounted for. Still not decided (hence level 'other'): SampleInBall's shuffle as an algorithm (only its absorb list and output weight), the fill order inside the rejection samplers, HintBitPack's layout (S10 shows w1Encode is SimpleBitPack in the FIPS bit order; z packing is C08 R4+R5); trusted: hash implementations, NTT diagonalisation (mathematics).",
     design_ref="DESIGN.md §4 C03",
     note="Level 'other': necessary structural clauses, not the byte-for-byte equality. Quick = ML-DSA-44 and -65 (K != L is needed to separate kappa += l from += k), thorough = all three. Trusted: abstract interpreter soundness, hash model.",
     technique="abstract interpretation over monomorphic MIR: symbolic hash absorb lists, generator probes, loop peeling + congruence invariants, path facts on tracked call results; piecewise-affine kernel exactness",
     engine="driver-ai"),
  "C04": dict(
     category="other",
-    text="Clauses of 'key generation is the FIPS 204 function of the seed', decided for every seed / generator output and all three parameter sets from one abstract run of keygen_from_seed and try_keygen_with_rng: K1 one 32-byte generator request fills xi, both entry points run the same key_gen_internal instance once and create identical hash instances, a failing generator gives Err with nothing computed; K2 (rho, rho', K) = H(xi|k|l) read as 32|64|32 bytes with the Table 1 constants in this order; K3 ExpandA: k*l SHAKE128 instances in row-major order absorbing rho|s|r; K4 ExpandS: l+k SHAKE256 instances absorbing rho'|IntegerToBytes(r,2); K5 tr = H(whole pkEncode(rho,t1), 64); K6 exact-copy provenance: pk.rho and sk.rho are H(xi|k|l)[0..32], sk.K is [96..128], pk.tr and sk.tr the 64 bytes of the tr hash, none rewritten; K7 CoeffFromThreeBytes (all 2^24 triples incl. the q-1/q boundary), CoeffFromHalfByte (both eta), Power2Round (all of Z_q) equal their FIPS definitions (C15 engine); K8 Power2Round applied once after full reduction of all coefficients; K10 the ring arithmetic symbolically (product symbols): the first NTT is applied to exactly s1, NTT^-1 to sum_j A-hat[i][j] o NTT(s1)[j] with unit coefficients modulo q, Power2Round to that + s2; K9 a symbolic run of keygen_from_seed followed by into_bytes (sampled coefficients and Power2Round outputs as named symbols, linear forms modulo q through the transforms) shows pkEncode receives exactly t1 and skEncode exactly the sampled s1, s2 (t0 congruent with unit coefficient): the NTT/Montgomery precompute and its inverse are transparent. With C18 F the arithmetic steps of KeyGen_internal are accounted for. K11 both rejection samplers leave their loop only with 256 accepted coefficients (the counter is exactly 256 at the end of its scope in every call). Still not decided (hence level 'other'): the fill order inside RejNTTPoly / RejBoundedPoly (which accepted sample becomes which coefficient); trusted: hash implementations, NTT diagonalisation (mathematics).",
+    text="Clauses of 'key generation is the FIPS 204 function of the seed', decided for every seed / generator output and all three parameter sets from one abstract run of keygen_from_seed and try_keygen_with_rng: K1 one 32-byte generator request fills xi, both entry points run the same key_gen_internal instance once and create identical hash instances, a failing generator gives Err with nothing computed and a working one gives Ok for every drawn value (no seed refused); K2 (rho, rho', K) = H(xi|k|l) read as 32|64|32 bytes with the Table 1 constants in this order; K3 ExpandA: k*l SHAKE128 instances in row-major order absorbing rho|s|r; K4 ExpandS: l+k SHAKE256 instances absorbing rho'|IntegerToBytes(r,2); K5 tr = H(whole pkEncode(rho,t1), 64); K6 exact-copy provenance: pk.rho and sk.rho are H(xi|k|l)[0..32], sk.K is [96..128], pk.tr and sk.tr the 64 bytes of the tr hash, none rewritten; K7 CoeffFromThreeBytes (all 2^24 triples incl. the q-1/q boundary), CoeffFromHalfByte (both eta), Power2Round (all of Z_q) equal their FIPS definitions (C15 engine); K8 Power2Round applied once after full reduction of all coefficients; K10 the ring arithmetic symbolically (product symbols): the first NTT is applied to exactly s1, NTT^-1 to sum_j A-hat[i][j] o NTT(s1)[j] with unit coefficients modulo q, Power2Round to that + s2; K9 a symbolic run of keygen_from_seed followed by into_bytes (sampled coefficients and Power2Round outputs as named symbols, linear forms modulo q through the transforms) shows pkEncode receives exactly t1 and skEncode exactly the sampled s1, s2 (t0 congruent with unit coefficient): the NTT/Montgomery precompute and its inverse are transparent. With C18 F the arithmetic steps of KeyGen_internal are accounted for. K11 both rejection samplers leave their loop only with 256 accepted coefficients (the counter is exactly 256 at the end of its scope in every call). Still not decided (hence level 'other'): the fill order inside RejNTTPoly / RejBoundedPoly (which accepted sample becomes which coefficient); trusted: hash implementations, NTT diagonalisation (mathematics).",
     design_ref="DESIGN.md §4 C04",
     note="Level 'other': necessary structural clauses. Trusted: abstract interpreter soundness, hash model, lib/spec.py transcription.",
     technique="abstract interpretation over monomorphic MIR: symbolic hash absorb lists and read offsets, generator probes, exact-copy provenance tags on byte arrays; piecewise-affine kernel exactness",
@@ -127,7 +127,7 @@ CLAIMED = {
     engine="driver-ai"),
  "C02": dict(
     category="other",
-    text="Rejection side and decision structure. R1: every FIPS-rejected hint class embedded in an otherwise arbitrary signature is definitely rejected by verify (representatives through hash_verify and _internal_verify). R2: signatures with one coefficient field encoding |z| in [gamma1-beta, gamma1] (both signs, exactly the bound, first/last coefficient and polynomial) are definitely rejected. R3: the decision compares all lambda/4 bytes of c-tilde with the first lambda/4 bytes of H(mu || w1Encode(w1')), UseHint is applied to all 256k coefficients, SampleInBall absorbs the whole c-tilde. R4: no overflow/self-check obligation on any verify path for arbitrary (pk, sig) and all three key provenances. R5: contexts > 255 rejected. R6: UseHint (both gamma2, h = 0, 1), Decompose/HighBits/LowBits and mod+- equal their FIPS definitions on their whole domain (C15 engine), so w1' is the FIPS w1' for every (w'_approx, h); CoeffFromThreeBytes equals Alg. 14 on all 2^24 inputs and RejNTTPoly returns only with 256 accepted coefficients (the verifier's A-hat is ExpandA's). R7: symbolic run of verify (matrix entries, decoded z, challenge, key precompute and transform outputs as named symbols, products as product symbols): NTT applied to exactly the decoded z and the challenge, w'_approx = NTT^-1(A-hat o NTT(z) - c-hat o t1*2^d) with unit / -2^-32 coefficients modulo q, UseHint applied to its coefficients; with C18 F (transforms are the FIPS maps) every arithmetic step of Verify_internal is accounted for. The acceptance side is not decided (needs hash values).",
+    text="Rejection side and decision structure. R1: every FIPS-rejected hint class embedded in an otherwise arbitrary signature is definitely rejected by verify (representatives through hash_verify and _internal_verify). R2: signatures with one coefficient field encoding |z| in [gamma1-beta, gamma1] (both signs, exactly the bound, first/last coefficient and polynomial) are definitely rejected. R3: the decision compares all lambda/4 bytes of c-tilde with the first lambda/4 bytes of H(mu || w1Encode(w1')), UseHint is applied to all 256k coefficients, SampleInBall absorbs the whole c-tilde and has the Alg. 29 skeleton (tau, squeeze order, positions, sign-bit indices, output range). R4: no overflow/self-check obligation on any verify path for arbitrary (pk, sig) and all three key provenances. R5: contexts > 255 rejected. R6: UseHint (both gamma2, h = 0, 1), Decompose/HighBits/LowBits and mod+- equal their FIPS definitions on their whole domain (C15 engine), so w1' is the FIPS w1' for every (w'_approx, h); CoeffFromThreeBytes equals Alg. 14 on all 2^24 inputs and RejNTTPoly returns only with 256 accepted coefficients (the verifier's A-hat is ExpandA's). R7: symbolic run of verify (matrix entries, decoded z, challenge, key precompute and transform outputs as named symbols, products as product symbols): NTT applied to exactly the decoded z and the challenge, w'_approx = NTT^-1(A-hat o NTT(z) - c-hat o t1*2^d) with unit / -2^-32 coefficients modulo q, UseHint applied to its coefficients; with C18 F (transforms are the FIPS maps) every arithmetic step of Verify_internal is accounted for. The acceptance side is not decided (needs hash values).",
     design_ref="DESIGN.md §4 C02",
     note="Only the reject direction and structural clauses; 'returns true iff FIPS returns true' is not established. Assumed obligations of rules/assume.json apply to R4.",
     technique="abstract interpretation on abstract signature classes through the verify entry points + hash/compare probes",
